@@ -7,6 +7,7 @@ package engine
 import (
 	"context"
 	"fmt"
+	"io"
 	"os"
 	"path/filepath"
 	"sync"
@@ -26,6 +27,7 @@ import (
 	"lunar/toolkit-core/verifhook"
 
 	"github.com/rs/zerolog"
+	zlog "github.com/rs/zerolog/log"
 	sdkmetric "go.opentelemetry.io/otel/sdk/metric"
 	"go.opentelemetry.io/otel/sdk/metric/metricdata"
 )
@@ -313,3 +315,30 @@ func (m *Metrics) Read() error {
 
 // Close drops the provider (its callbacks are not called any more).
 func (m *Metrics) Close() { _ = m.provider.Shutdown(context.Background()) }
+
+// WithLogLevel runs f with the engine's loggers at the given level ("" / "disabled", "error", "debug", "trace"),
+// their output discarded: what a log statement does to format its arguments happens, nothing is printed.
+// Afterwards logging is disabled again (the state Setup leaves).
+func WithLogLevel(level string, f func()) {
+	lv := zerolog.Disabled
+	switch level {
+	case "error":
+		lv = zerolog.ErrorLevel
+	case "debug":
+		lv = zerolog.DebugLevel
+	case "trace":
+		lv = zerolog.TraceLevel
+	}
+	if lv == zerolog.Disabled || os.Getenv("VERIF_LOG") != "" {
+		f()
+		return
+	}
+	prev := zlog.Logger
+	zlog.Logger = zerolog.New(io.Discard)
+	zerolog.SetGlobalLevel(lv)
+	defer func() {
+		zerolog.SetGlobalLevel(zerolog.Disabled)
+		zlog.Logger = prev
+	}()
+	f()
+}
